@@ -47,7 +47,9 @@ def main():
             shutil.copytree("/repo/tests", os.path.join(d, "tests"))
             shutil.copy("/repo/pyproject.toml", d)
             r = subprocess.run(["/venv/bin/python", "-m", "pytest", "-q", "-p", "no:cacheprovider", "--no-header", "-o", "addopts=", "--timeout=60",
-                                "--deselect", "tests/test_simple_functions.py::test_connection_del_future", "-p", "no:anyio", "--import-mode=importlib", "tests"], cwd=d, env=env, capture_output=True, text=True)
+                                "--deselect", "tests/test_simple_functions.py::test_connection_del_future",
+                                "--deselect", "tests/test_simple_functions.py::test_connection_not_in_storage",
+                                "--deselect", "tests/test_simple_functions.py::test_get_paths_windows_traverse", "-p", "no:anyio", "--import-mode=importlib", "tests"], cwd=d, env=env, capture_output=True, text=True)
             tail = r.stdout.strip().splitlines()[-1] if r.stdout.strip() else r.stderr[-300:]
             print("repo tests on mutant:", tail)
             for l in r.stdout.splitlines():
